@@ -450,7 +450,53 @@ fn run_n<const N: usize>(c: &mut Ctx, keys: usize, msgs: usize) {
     }
 }
 
+// ------------------------------------------------------------------------------------------
+// Can a blind-signable value be obtained without a verified request? The type is meant to have no
+// constructor besides verification. If a decoder for it exists (the monitor finds out through method
+// resolution: the inherent method below exists only when the type is deserializable), the harness uses
+// it: 48 bytes of an unproven blinded message are decoded, blind-signed and unblinded.
+struct DecodeProbe<T>(std::marker::PhantomData<T>);
+trait NoDecoder<T> {
+    fn try_decode(&self, _b: &[u8]) -> Option<T> {
+        None
+    }
+}
+impl<T> NoDecoder<T> for &DecodeProbe<T> {}
+impl<T: serde::de::DeserializeOwned> DecodeProbe<T> {
+    fn try_decode(&self, b: &[u8]) -> Option<T> {
+        bincode::deserialize::<T>(b).ok()
+    }
+}
+
+fn unproven_value_case(c: &mut Ctx) {
+    use zkchannels_crypto::pointcheval_sanders::VerifiedBlindedMessage;
+    c.case("blind-signable-value-without-proof", |c| {
+        let mut rng = c.rng("blind-signable-value-without-proof");
+        let kp = KeyPair::<3>::new(&mut rng);
+        let vals = [Scalar::random(&mut rng), Scalar::from(7u64), Scalar::zero()];
+        let msg = Message::new(vals);
+        let bf = zkchannels_crypto::BlindingFactor::new(&mut rng);
+        let blinded = enc(&msg.blind(kp.public_key(), bf));
+        c.eval();
+        c.distinct("unproven-blinded-message-as-verified");
+        #[allow(clippy::needless_borrow)]
+        let got: Option<VerifiedBlindedMessage> = (&DecodeProbe::<VerifiedBlindedMessage>(std::marker::PhantomData)).try_decode(&blinded);
+        match got {
+            None => c.count("no_way_to_obtain_a_blind_signable_value_without_verification", 1),
+            Some(v) => {
+                let sig = v.blind_sign(&kp, &mut rng).unblind(bf);
+                let verifies = sig.verify(kp.public_key(), &msg);
+                c.violation(
+                    "C08 blind-signable-value-obtained-without-verified-request",
+                    json!({"route": "bincode decode of 48 bytes", "signature_on_unproven_message_verifies": verifies}),
+                );
+            }
+        }
+    });
+}
+
 pub fn run(c: &mut Ctx) {
+    unproven_value_case(c);
     c.note(
         "rule",
         json!("One case per (N in {1,2,3,5,8,13}, key pair, message number). Message entries from EDGE={0,1,q-1,small,2^63-1,2^63,random} (numbers 0-6 constant class, 7-13 cyclic layouts, 14+ random class per coordinate); conjunction commitment scalars none / every other one / all with a zero (by message number); challenge over the first message alone / plus the key / plus a context string. Honest: builder -> challenge -> proof, the verifier recomputes the challenge from the proof, verify_knowledge_of_opening must be Some, its value is blind-signed and unblinded with message_blinding_factor(); ps_verify_ref (and Signature::verify) must accept the requester's message and reject one change per coordinate (+1 / random / other EDGE value / -1, rotating). Extras: the proof's commitment atom equals pedersen_ref_g1(g1, Y1..YN; message, blinding factor) and the bytes of Message::blind. Tampered: every non-length atom of the proof bytes replaced by another valid value, +1 (scalars), identity and negation (points), the same atom of a second honest request; commitments exchanged; challenge with extra bytes / other variant / of the second request / over another key; the whole second proof; another public key: all must give None (second request under its own challenge is the positive twin). Distinct = (N, key, message classes, commitment-scalar variant, challenge variant, check or tamper@atom)."),
